@@ -75,7 +75,12 @@ def run(tier):
                 ops = ["r0=%s" % C.hexs(mtxt), "r2=%s" % C.hexs(stxt)]
                 checks = []
                 idxs = range(len(keys)) if len(keys) <= 60 else sorted(rng.sample(range(len(keys)), 40))
-                hist = rng.choice([[], ["h:0"], ["h:0", "h:2"], ["d:0"], ["h:0.0"]])
+                hist = rng.choice([[], ["h:0"], ["h:0", "h:2"], ["d:0"], ["h:0.0"], "list-keys", "list-keys"])
+                if hist == "list-keys":
+                    # what a program printing the container does first: fetch every key / element as a string
+                    hist = ["sg:0.%d" % (2 * j) for j in range(len(keys))] + ["sg:2.%d" % j for j in range(len(keys))]
+                    if len(hist) > 120:
+                        hist = hist[:120]
                 ops += hist
                 for i in idxs:
                     ktxt = G.render(rng, twin(rng, keys[i]) if rng.random() < 0.5 else keys[i], cfg, rich=rng.random() < 0.2)
